@@ -93,6 +93,8 @@ class Configuration:
                         envvalue = True
                     else:
                         raise ValueError("invalid boolean value: %s%s=%s" % (prefix, item, envvalue))
+                elif value is None:
+                    pass  # an item without a default value (a host name): the text is the value
                 else:
                     try:
                         envvalue = valuetype(envvalue)
